@@ -32,7 +32,7 @@ func (c08) Assumptions() []string {
 	}
 }
 func (c08) Required(tier string) []string {
-	return []string{"strategy-typed", "strategy-generic", "strategy-skip", "strategy-skipfast", "strategy-decline", "strategy-nested", "strategy-int", "buffer-shared-reentrant", "buffer-per-depth", "direct-failed-readall-checked", "escaped-key-decoded", "nested-depth>=3", "buffers-with-history"}
+	return []string{"strategy-typed", "strategy-generic", "strategy-skip", "strategy-skipfast", "strategy-decline", "strategy-nested", "strategy-int", "buffer-shared-reentrant", "buffer-per-depth", "direct-failed-readall-checked", "escaped-key-decoded", "nested-depth>=3", "buffers-with-history", "strings-appended-into-one-buffer"}
 }
 
 type skippedMarker struct{}
@@ -47,6 +47,7 @@ type composer struct {
 	skipped  bool
 	decided  int
 	scratch  []byte
+	acc      []byte // one buffer that several strings are appended to, documented ReadStringBytes use
 	maxDepth int
 }
 
@@ -224,7 +225,18 @@ func (c *composer) value(data []byte, depth int, inHandler bool) (interface{}, i
 		return v, p, err
 	case rjson.StringType:
 		c.st.probe("strategy-typed")
-		switch sub % 3 {
+		switch sub % 4 {
+		case 3:
+			// append into one growing buffer and slice the new part off
+			start := len(c.acc)
+			var err error
+			var p int
+			c.acc, p, err = rjson.ReadStringBytes(data, c.acc)
+			if err != nil {
+				return nil, p, err
+			}
+			c.st.probe("strings-appended-into-one-buffer")
+			return string(c.acc[start:]), p, nil
 		case 1:
 			var err error
 			var p int
@@ -384,7 +396,7 @@ func (c08) Gen(r *Rand, sc *Scenario, tier string) {
 			case 3:
 				s = []int{sSkip, sSkipFast, sDecline, sTyped}[r.Intn(4)]
 			}
-			op.Tape = append(op.Tape, s+nStrategies*r.Intn(6))
+			op.Tape = append(op.Tape, s+nStrategies*r.Intn(12))
 		}
 		ops = append(ops, op)
 	}
